@@ -201,3 +201,39 @@ Proof.
   - reflexivity.
   - left. vm_compute. tauto.
 Qed.
+
+(* ---------- the update theorem is not vacuous: the base revision alone (another file, its own layout) and
+   the base revision followed by the update ---------- *)
+Definition ex_base_layout : hlayout := mk_hlayout [] (B "1.4" ++ xnl) [xrl0] xnl 2 xnl xnl.
+
+Lemma ex_base_wf_history : wf_history [xr0].
+Proof. split; [discriminate|]. repeat constructor; cbn; intuition discriminate. Qed.
+
+Lemma ex_base_wf : wf_layouts [xr0] ex_base_layout.
+Proof.
+  constructor.
+  - vm_compute. reflexivity.
+  - reflexivity.
+  - replace (place (len (hhead ex_base_layout)) None [xr0] (hl_revs ex_base_layout)) with [(9, @None N, xr0, xrl0)] by (vm_compute; reflexivity).
+    apply Forall_cons; [exact xwf0|apply Forall_nil].
+  - split; [repeat constructor|discriminate].
+  - split; [cbn; lia|]. split; vm_compute; reflexivity.
+  - repeat constructor.
+  - repeat constructor; discriminate.
+Qed.
+
+Example ex_update_related :
+  exists c c',
+    load_bytes false (render_history_classic [xr0] ex_base_layout) = Loaded c' (1, 0)%N /\
+    load_bytes false (render_history_classic ([xr0] ++ [xr1]) ex_hlayout) = Loaded c (1, 0)%N /\
+    ctx_get c' (2, 0)%N = Some (VObj (OInt 5)) /\ ctx_get c (2, 0)%N = Some (VObj (OInt 7)) /\
+    ctx_get c' (4, 0)%N = Some (VObj (OBool true)) /\ ctx_get c (4, 0)%N = None /\
+    ctx_get c (1, 0)%N = ctx_get c' (1, 0)%N /\ ctx_get c' (3, 0)%N = None /\ ctx_get c (3, 0)%N = Some (VObj (OStr (B "abc"))).
+Proof.
+  destruct (load_bytes_update_classic false [xr0] xr1 ex_hlayout ex_base_layout ex_base_wf_history ex_base_wf ex_wf_history ex_wf_layouts)
+    as (c & c' & L' & L & K).
+  destruct (load_bytes_history_classic false [xr0] ex_base_layout ex_base_wf_history ex_base_wf) as (c2 & L2 & K2).
+  rewrite L' in L2. injection L2 as <-.
+  exists c, c'. split; [exact L'|]. split; [exact L|].
+  rewrite !K, !K2. repeat split.
+Qed.
